@@ -423,33 +423,25 @@ impl Exp {
     /// # Returns
     /// String representation with appropriate parentheses based on operator precedence
     pub fn to_string_with_precedence(&self, last_operator: BinOp) -> String {
-        let last_precedence = last_operator.precedence();
+        self.to_string_as_operand(last_operator, false)
+    }
+
+    /// Like [`Exp::to_string_with_precedence`], knowing on which side of the
+    /// parent operator the expression is written.
+    fn to_string_as_operand(&self, parent: BinOp, is_rhs: bool) -> String {
         match self {
             Exp::BinOp(op, lhs, rhs) => {
-                let string_lhs = lhs.to_string_with_precedence(*op);
-                let string_rhs = rhs.to_string_with_precedence(*op);
-                let precedence = op.precedence();
-                if precedence < last_precedence {
+                let string_lhs = lhs.to_string_as_operand(*op, false);
+                let string_rhs = rhs.to_string_as_operand(*op, true);
+                if op.operand_needs_parenthesis(parent, is_rhs) {
                     format!("({} {} {})", string_lhs, op, string_rhs)
                 } else {
-                    //TODO improve this
-                    match last_operator {
-                        BinOp::Add
-                        | BinOp::Mul
-                        | BinOp::Div
-                        | BinOp::And
-                        | BinOp::Or
-                        | BinOp::Xor
-                        | BinOp::Implies
-                        | BinOp::Iff => {
-                            format!("{} {} {}", string_lhs, op, string_rhs)
-                        }
-                        BinOp::Sub => match rhs.is_leaf() {
-                            true => format!("{} {} {}", string_lhs, op, string_rhs),
-                            false => format!("{} {} ({})", string_lhs, op, string_rhs),
-                        },
-                    }
+                    format!("{} {} {}", string_lhs, op, string_rhs)
                 }
+            }
+            //the logic forms bind looser than every arithmetic operator
+            Exp::And(_) | Exp::Or(_) | Exp::Xor(_, _) | Exp::Implies(_, _) | Exp::Iff(_, _) => {
+                format!("({})", self)
             }
             _ => self.to_string(),
         }
@@ -571,8 +563,8 @@ impl fmt::Display for Exp {
             ),
             Exp::BinOp(operator, lhs, rhs) => {
                 //TODO: add parenthesis when needed
-                let string_lhs = lhs.to_string_with_precedence(*operator);
-                let string_rhs = rhs.to_string_with_precedence(*operator);
+                let string_lhs = lhs.to_string_as_operand(*operator, false);
+                let string_rhs = rhs.to_string_as_operand(*operator, true);
                 format!("{} {} {}", string_lhs, operator, string_rhs)
             }
             Exp::UnOp(op, exp) => {
